@@ -658,10 +658,27 @@ def ratio_out_of_range(rec):
     return False
 
 
+def ratio_rounds_to_zero_or_inf(rec):
+    """some contributing quotient q_i/p_i is not even representable as a subnormal (rounds to zero) or overflows:
+    only then does the logarithm of the rounded quotient become infinite"""
+    ty = rec["ty"]
+    p = vals(rec["p"], ty); q = vals(rec["q"], ty)
+    for pi, qi in zip(p, q):
+        if pi > 0 and qi > 0 and math.isfinite(pi) and math.isfinite(qi):
+            r = F(qi) / F(pi)
+            if r >= FMAX[ty] * 2 or r <= F(ETA[ty]) / 2:
+                return True
+    return False
+
+
 def j_entropy_like(rec, kind, key="r"):
     st, info = j_entropy_like_inner(rec, kind, key)
     if st == BAD and kind == "kl" and ratio_out_of_range(rec) and not str(info).startswith("[class:"):
-        info = "[class:F9] " + str(info)
+        # known finding F9 covers the loss of accuracy of ln(q_i/p_i) for a quotient outside the normal range; an
+        # INFINITE (or NaN) answer belongs to it only when a quotient really rounds to zero or overflows
+        got, e = need_val(rec, key)
+        if e is None and (math.isfinite(got) or ratio_rounds_to_zero_or_inf(rec)):
+            info = "[class:F9] " + str(info)
     return st, info
 
 
@@ -719,14 +736,15 @@ def j_entropy_identity(rec):
         return D(SAFETY) * (D(n + 8) * du * sum(abs(t) for t in ts) + 4 * du * sp) + 4 * n * dec(ETA[ty])
     t_all = tol(th) + tol(tc) + tol(tk)
     d = abs(D(c) - D(h) - D(k))
+    f9 = "[class:F9] " if ratio_out_of_range(rec) else ""   # the returned KL is inaccurate there (known finding)
     if d > t_all:
-        return BAD, "H(p,q) - H(p) - KL(p,q) = %s exceeds the sum of the tolerances %.3e" % (d, float(t_all))
+        return BAD, f9 + "H(p,q) - H(p) - KL(p,q) = %s exceeds the sum of the tolerances %.3e" % (d, float(t_all))
     worst = float(d / t_all) if t_all else 0.0
     P = sum(dec(F(x)) for x in p); Q = sum(dec(F(x)) for x, pp in zip(q, p) if pp != 0)
     if P > 0 and Q > 0:
         lb = P * (P / Q).ln()
         if D(k) < lb - tol(tk) - 8 * du * abs(lb):
-            return BAD, "KL(p,q) = %r below the log-sum bound P ln(P/Q) = %s" % (k, lb)
+            return BAD, f9 + "KL(p,q) = %r below the log-sum bound P ln(P/Q) = %s" % (k, lb)
     X = P
     npos = sum(1 for x in p if x > 0)
     if X > 0 and npos > 0:
